@@ -44,6 +44,9 @@ def run(chk):
     c_exe, m_exe = vlib.prepare_area(chk, sort, leanchecker=True)
     from areas import sortmap_tie
     sortmap_tie.tie_run(chk, "sort")
+    from areas import swap_tie
+    swap_tie.tie_run(chk, "swap")
+    chk.theorems.update(vlib.audit(swap_tie.THEOREMS["C11"], ["Cstl.Swap.Props"]))
     if c_exe:
         vlib.run_scripts(chk, sort, c_exe, m_exe, sort.corpus(), sort.oracle)
         if chk.tier == "quick":
